@@ -236,4 +236,77 @@ class CrossOriginIntergenic(Harness):
         return {"pieces:1"} if not var["genes"] else {"pieces:0", "pieces:1"}
 
 
-HARNESSES = [ScanOrfs(), Intergenic(), CrossOriginIntergenic()]
+class AreaSearch(Harness):
+    """find_all_orfs restricted to an area that does not span the origin: which stretches of the area are searched at all"""
+    pid, name = "C15", "area_search"
+    functions = [AO + "find_all_orfs", AO + "find_intergenic_areas",
+                 "antismash.common.secmet.record:Record.get_cds_features_within_location"]
+    bound = ("a simple area on a linear or circular record with G <= 2 genes anywhere on the record (inside the area, straddling its "
+             "start or end, covering it, outside), symbolic coordinates, allowed overlap and minimum length >= 1")
+    outside = "G > 2; the sequence itself (the stretches handed to scan_orfs are observed, scanning is the scan_orfs harness)"
+    stubs = ["scan_orfs is replaced by a recorder inside find_all_orfs (its own harness checks it); the record's sequence is a length carrier"]
+    task_paths = 200
+
+    def variants(self, tier):
+        return [{"g": g, "circ": circ} for g in (1, 2) for circ in (False, True)]
+
+    def vars(self, var):
+        d = {"n": "int", "pad": "int", "minlen": "int", "x": "int"}
+        d.update(shape_vars("a", "s"))
+        for i in range(var["g"]):
+            d.update(shape_vars("g%d" % i, "s"))
+        return d
+
+    def pre(self, var, v):
+        n = v["n"]
+        c = [shape_pre("a", "s", v, n), 0 <= v["pad"], v["pad"] <= 50, 1 <= v["minlen"], 0 <= v["x"], v["x"] < n]
+        for i in range(var["g"]):
+            c += [shape_pre("g%d" % i, "s", v, n), v["g%de0" % i] - v["g%ds0" % i] > 2 * v["pad"] + 3]
+        if var["g"] == 2:
+            c += [v["g0s0"] <= v["g1s0"], L.Or(v["g0s0"] != v["g1s0"], v["g0e0"] != v["g1e0"])]
+        return L.And(c)
+
+    def run(self, var, v):
+        from antismash.common.secmet.features import SubRegion
+        from .common import mkrecord
+        rec = mkrecord(v["n"], var["circ"])
+        for i in range(var["g"]):
+            rec.add_cds_feature(DummyCDS(location=build("g%d" % i, "s", v), locus_tag="g%d" % i, translation="A"))
+        area = SubRegion(build("a", "s", v), tool="test")
+        searched = []
+        real_gaps, real_scan = ao.find_intergenic_areas, ao.scan_orfs
+
+        def gaps(*args, **kwargs):
+            found = real_gaps(*args, **kwargs)
+            searched.extend(found)
+            return found
+        ao.find_intergenic_areas = gaps
+        ao.scan_orfs = lambda *args, **kwargs: []
+        try:
+            ao.find_all_orfs(rec, area, min_length=v["minlen"], max_overlap=v["pad"])
+        finally:
+            ao.find_intergenic_areas, ao.scan_orfs = real_gaps, real_scan
+        return [(cn(a), cn(b)) for a, b in searched]
+
+    def post(self, var, v, out):
+        if is_raised(out):
+            return [("no_raise", False)]
+        pad, x = v["pad"], v["x"]
+        cl = []
+        for a, b in out:
+            cl.append(("searched_stretch_inside_the_area", L.And(v["as0"] <= a, a < b, b <= v["ae0"])))
+            for i in range(var["g"]):
+                s_, e_ = v["g%ds0" % i], v["g%de0" % i]
+                cl.append(("searched_stretch_only_in_gaps_up_to_allowed_overlap", L.Or(b <= s_ + pad, a >= e_ - pad)))
+        return cl
+
+    def klass(self, var, out):
+        if is_raised(out):
+            return "raised:" + out.etype
+        return "stretches:%d" % min(len(out), 2)
+
+    def expected_classes(self, var):
+        return {"stretches:0", "stretches:1", "stretches:2"}
+
+
+HARNESSES = [ScanOrfs(), Intergenic(), CrossOriginIntergenic(), AreaSearch()]
